@@ -769,6 +769,9 @@ struct C05 : Property
 					{
 						s.handles[(size_t)slot] = dst;
 						must_be_fresh(dst, before, ctx, oi, "json_object_deep_copy");
+						// (and a copy is a copy: same shape and values, null elements and members included)
+						if (typed_dump(dst) != typed_dump(n))
+							ctx.fail("C05:copy-differs-from-source", "op %zu: json_object_deep_copy produced %s from %s", oi, typed_dump(dst).substr(0, 200).c_str(), typed_dump(n).substr(0, 200).c_str());
 						ctx.probe("deep_copy.ok");
 					}
 					else
